@@ -50,9 +50,15 @@ func TestVerif_C09Remote(t *testing.T) {
 	ctx := context.Background()
 	for ci := 0; ci < n; ci++ {
 		r := vNewRand(uint64(900000 + ci))
+		// a port that is free right now (the package's TestMain picks one at random)
+		if l, err := net.Listen("tcp", "127.0.0.1:0"); err == nil {
+			smtpPort = fmt.Sprint(l.Addr().(*net.TCPAddr).Port)
+			l.Close()
+		}
 		utf8 := r.chance(50)
 		be, srv := testutils.SMTPServer(t, "127.0.0.1:"+smtpPort, func(s *smtp.Server) { s.EnableSMTPUTF8 = utf8 })
 		tgt := testTarget(t, zones, nil, nil)
+		tgt.connReuseLimit = 10 // the configuration default; testTarget leaves it at 0 (no reuse)
 		domain := "example.invalid"
 		if r.chance(50) {
 			domain = "тест.invalid"
